@@ -308,9 +308,19 @@ def _tree(n_roots):
     return ev, ps, par1, par2
 
 
-def _tree_checks(n_roots):
+def _tree_checks(n_roots, third_add=False):
     ev, ps, par1, par2 = _tree(n_roots)
     n = n_roots + 3
+    par3 = None
+    if third_add:
+        # a third call gives one more child to ANY existing particle - in particular to one that already has children
+        # from an earlier call, with another parent's children added in between (interleaved calls)
+        k3 = integer("parent_of_third_add")
+        assume(And(k3 >= 0, k3 < n))
+        par3 = ps[:n][k3]
+        ps.append(obj(PT, _tag=n))
+        ev.add_children(par3, [ps[n]])
+        n = n + 1
     seen = list(ev)
     prove("iteration-yields-every-particle-once-in-order", And(len(seen) == n, *[seen[i] is ps[i] for i in range(n)]))
     prove("len", len(ev) == n)
@@ -321,7 +331,7 @@ def _tree_checks(n_roots):
         if c < n_roots:
             prove("root-has-no-parent-%d" % c, parent is None)
         else:
-            expected = par1 if c < n_roots + 2 else par2
+            expected = par1 if c < n_roots + 2 else (par2 if c < n_roots + 3 else par3)
             prove("parent-%d" % c, parent is expected)
         for p in range(n):
             kids = ev.get_children(ps[p])
@@ -332,7 +342,7 @@ def _tree_checks(n_roots):
             prove("child-iff-parent-%d-%d" % (p, c), is_kid == (parent is ps[p]))
     # levels partition the tree
     total = 0
-    for level in range(4):
+    for level in range(5):
         lv = ev.get_from_level(level)
         total += len(lv)
         for q in lv:
@@ -360,6 +370,11 @@ def event_tree_one_root():
 @harness(clause="event-tree", label="B")
 def event_tree_two_roots():
     _tree_checks(2)
+
+
+@harness(clause="event-tree", label="B")
+def event_tree_three_interleaved_adds():
+    _tree_checks(1, third_add=True)
 
 
 @harness(clause="event-tree")
